@@ -75,6 +75,43 @@ def check_case(rep, case, name):
                 rep.dev(name, case, 'row %d force %r' % (n, fo), '-dE/dr(%r)=%r' % (rk, fe)); return
             rep.ok(4)
 
+def potable_cases(rep, rng, n):
+    """the potable route (statement: 'through both the Python API and potable files'): models made of built-in forms under modifiers and of
+    custom [Potential-Form] formulas that call a helper formula, read one after the other IN ONE PROCESS -- consecutive files keep the text of the
+    custom form and change only the helper it calls, so anything remembered from an earlier file shows in the next table."""
+    from _expr import gen, to_config, exact, min_r
+    from atsim.potentials.config import Configuration
+    import math
+    for i in range(n):
+        t = gen(rng, rng.randint(0, 2))
+        f0, f1, _ = exact(t)
+        nr = rng.choice([11, 26, 51]); cutoff = rng.choice([5.0, 6.5, 8.0]); A = round(rng.uniform(50, 500), 1); npow = rng.choice([2, 4])
+        for step, L in enumerate([round(rng.uniform(0.8, 1.2), 3), round(rng.uniform(1.8, 2.6), 3)]):
+            ini = ('[Tabulation]\ntarget : LAMMPS\nnr : %d\ncutoff : %r\n\n[Pair]\nA-B : %s\nC-D : pairf %r %d\n\n[Potential-Form]\npairf(r_, A_, n_) = A_ * damp(r_) / r_^n_\ndamp(r_) = exp(-r_/%r)\n'
+                   % (nr, cutoff, to_config(t), A, npow, L))
+            case = dict(kind='potable', step=step, ini=ini); rep.case('potable/step%d' % step, case)
+            try:
+                out = io.StringIO(); Configuration().read(io.StringIO(ini)).write(out); blocks = parse_lammps(out.getvalue())
+            except Exception as e:
+                rep.dev('potable-%d' % i, case, 'exception %r' % (e,), 'a LAMMPS table'); break
+            dr = cutoff / (nr - 1); bad = None
+            keys = [b['key'] for b in blocks]
+            if keys != ['A-B', 'C-D']: rep.dev('potable-%d' % i, case, 'blocks %r' % keys, "['A-B', 'C-D']"); break
+            for b, fe, fd, lo in ((blocks[0], lambda x: float(f0(x)), lambda x: float(f1(x)), min_r(t)),
+                                  (blocks[1], lambda x: A * math.exp(-x / L) / x ** npow, lambda x: A * math.exp(-x / L) * (-1.0 / L / x ** npow - npow / x ** (npow + 1)), 0.0)):
+                if b['N'] != nr - 1 or len(b['rows']) != nr - 1: bad = ('rows', b['N'], nr - 1); break
+                for k, (n_, r_, e, fo) in enumerate(b['rows']):
+                    rk = (k + 1) * dr
+                    if rk < max(lo, 0.3): continue
+                    try: ee, de = fe(rk), fd(rk)
+                    except Exception: continue
+                    if not (abs(ee) < 1e12): continue
+                    if not close(e, ee, 1e-7, 2e-8): bad = ('%s energy at %r' % (b['key'], rk), e, ee); break
+                    if not close(fo, -de, 2e-5, 2e-5): bad = ('%s force at %r' % (b['key'], rk), fo, -de); break
+                if bad: break
+            if bad: rep.dev('potable-%d' % i, case, '%s: %r' % bad[:2], bad[2]); break
+            rep.ok(2 * (nr - 1))
+
 def gen_case(rng):
     nr = rng.choice([3, 4, 5, 7, 10, 30, 54, 100, 101, 200, rng.randint(3, 300)])
     cutoff = rng.choice([1.0, 2.5, 6.5, 8.0, 9.0, 10.0, 12.0, round(rng.uniform(0.5, 15), 2)])
@@ -91,12 +128,15 @@ def gen_case(rng):
 if __name__ == '__main__':
     pl = payload()
     rep = Report('C01')
-    if pl.get('mode') == 'replay':
+    if pl.get('mode') == 'replay' and pl['input'].get('kind') == 'potable':
+        potable_cases(rep, random.Random(pl.get('seed', 0)), 8)
+    elif pl.get('mode') == 'replay':
         rep.case('replay', pl['input']); check_case(rep, pl['input'], 'replay')
     else:
         rng = random.Random(pl.get('seed', 0))
         for c in pl.get('cases', []):
             rep.case('model', c); check_case(rep, c, 'model')
+        potable_cases(rep, rng, max(3, pl.get('n', 40) // 5))
         for i in range(pl.get('n', 40)):
             c = gen_case(rng); rep.case(c['route'], c); check_case(rep, c, 'seeded-%d' % i)
     rep.finish()
